@@ -10,9 +10,13 @@
 package main
 
 import (
+	"bytes"
+	"context"
 	"encoding/json"
 	"flag"
 	"fmt"
+	"os"
+	"os/exec"
 	"runtime"
 	"sort"
 	"strings"
@@ -40,6 +44,10 @@ type windowD struct {
 	Late     []latePair `json:"late,omitempty"`     // retained responses read again later
 	Overlaps int64      `json:"overlaps,omitempty"` // concurrent entries into one node's Process during the window
 	LateBad  int        `json:"late_mismatches,omitempty"`
+	Rounds   int         `json:"rounds,omitempty"` // cold windows: attempts on fresh instances inside one child process
+	Cold     bool        `json:"cold,omitempty"`  // the window ran in a child process on a FRESH instance: no id was ever looked up before
+	Crash    string      `json:"crash,omitempty"` // the child process died (e.g. "fatal error: concurrent map writes")
+	Race     string      `json:"race,omitempty"`  // race detector report printed by the child (only in -race builds)
 	Fresh    []freshPair `json:"fresh,omitempty"` // live artifact vs fresh instance with the same parameter values
 	FreshBad int         `json:"fresh_mismatches,omitempty"`
 }
@@ -51,7 +59,7 @@ type freshPair struct {
 }
 
 func (w *windowD) flagged() bool {
-	return w.GoNonLin || w.Timeout || w.LateBad > 0 || w.Overlaps > 0 || w.FreshBad > 0
+	return w.GoNonLin || w.Timeout || w.LateBad > 0 || w.Overlaps > 0 || w.FreshBad > 0 || w.Crash != "" || w.Race != ""
 }
 
 var (
@@ -59,6 +67,7 @@ var (
 	unlockedReads = flag.Bool("unlocked-reads", true, "clients also call ModelVersion() and Schema() (documented-unlocked readers)")
 	attempts      = flag.Int("attempts", 300, "replay: number of re-runs of the recorded programs")
 	windowTimeout = flag.Duration("window-timeout", 10*time.Second, "deadline for one window")
+	coldFlag      = flag.Int("cold", -1, "number of cold-start windows run in child processes (-1: n/12, at most 400)")
 	consumeFlag   = flag.Bool("consume", true, "clients also re-read retained responses of earlier windows slowly while updates run")
 )
 
@@ -76,7 +85,7 @@ func (g *liveGraph) do(t int, op opD, clock *atomic.Uint64) (rc rec) {
 	case "u", "b":
 		msg := []byte("{")
 		if op.K == "u" {
-			msg = encodeVal(g.par[op.P].typ, op.V)
+			msg = encodeVal(g.par[op.P].typ, op.V, op.Enc)
 		}
 		id := g.par[op.P].id
 		rc.Inv = clock.Add(1)
@@ -205,7 +214,7 @@ func (rc *rec) sliceBacked() bool {
 		return rc.g.shape.Prods[rc.Op.Prod].Kind != ""
 	case "g":
 		t := rc.g.par[rc.Op.P].typ
-		return t == "file" || t == "ints"
+		return t == "file" || t == "ints" || t == "image"
 	}
 	return false
 }
@@ -395,6 +404,9 @@ func genPrograms(r *hx.Rng, g *liveGraph, T int, cur []int, withUnlocked bool) [
 			}
 		}
 		planned[p] = v
+		if g.par[p].typ == "image" {
+			return opD{K: "u", P: p, V: v, Enc: hx.Pick(r, []string{"png", "png-rgba", "png-best", "jpeg", "jpeg", "jpeg"})}
+		}
 		return opD{K: "u", P: p, V: v}
 	}
 	mkRead := func(artPct int) opD {
@@ -539,12 +551,12 @@ func afterWindow(g *liveGraph, w *windowD) {
 // keeps the slice -- later windows re-read these after their updates
 func (g *liveGraph) prime(cur []int, clock *atomic.Uint64) {
 	for p := range g.par {
-		if t := g.par[p].typ; t == "file" || t == "ints" {
-			g.do(0, opD{K: "u", P: p, V: cur[p]}, clock)
+		if t := g.par[p].typ; t == "file" || t == "ints" || t == "image" {
+			g.do(0, opD{K: "u", P: p, V: cur[p], Enc: "png"}, clock)
 		}
 	}
 	for p := range g.par {
-		if t := g.par[p].typ; t == "file" || t == "ints" {
+		if t := g.par[p].typ; t == "file" || t == "ints" || t == "image" {
 			rc := g.do(0, opD{K: "g", P: p}, clock)
 			if rc.Resp.K == "get" {
 				g.retained = append(g.retained, &rc)
@@ -672,7 +684,14 @@ func toCase(w *windowD, kindPrefix string) hx.Case {
 		}
 	}
 	key := w.Shape.Name + "|" + fmt.Sprint(w.Init) + "|" + calls + "|" + strings.Join(vs, ";") + "|" + late + "|" + fresh
-	return hx.Case{Kind: kindPrefix + kind, Desc: w, Coq: coq, Nontriv: nontriv, Key: key}
+	if w.Cold {
+		kind = "cold-" + kind
+	}
+	c := hx.Case{Kind: kindPrefix + kind, Desc: w, Coq: coq, Nontriv: nontriv, Key: key}
+	if w.Race != "" { // only in -race builds: the detector's report belongs to exactly this window
+		c.GoFail = "go race detector: " + w.Race
+	}
+	return c
 }
 
 func stats(run *hx.Run, w *windowD) {
@@ -708,6 +727,15 @@ func stats(run *hx.Run, w *windowD) {
 	}
 	if w.Timeout {
 		run.Count("window:timeout")
+	}
+	if w.Cold {
+		run.Count("window:cold-start-in-child-process")
+	}
+	if w.Crash != "" {
+		run.Count("window:child-crashed")
+	}
+	if w.Race != "" {
+		run.Count("window:race-report-in-child")
 	}
 	if w.GoNonLin {
 		run.Count("window:nonlinearizable-by-go-mirror")
@@ -745,6 +773,122 @@ func stats(run *hx.Run, w *windowD) {
 			break
 		}
 	}
+	for _, t := range w.Shape.PTypes {
+		if t == "image" {
+			run.Count("window:with-image-parameters")
+			break
+		}
+	}
+}
+
+// ---------------------------------------------------------------- cold windows (child process)
+// A cold window runs on a FRESH instance on which nothing was ever looked up (the situation right after start-up or
+// a reload): all clients are released together and address node ids for the first time.  It runs in a child
+// process (this binary with -cold-child, description on stdin, result on stdout) because what goes wrong there
+// can be an unrecoverable runtime error ("fatal error: concurrent map writes") that no recover() catches.
+func coldChild() {
+	var w windowD
+	if err := json.NewDecoder(os.Stdin).Decode(&w); err != nil || w.Shape == nil {
+		fmt.Fprintln(os.Stderr, "cold-child: cannot decode the window description:", err)
+		os.Exit(3)
+	}
+	clock := &atomic.Uint64{}
+	// the same cold start is attempted on several fresh instances (the first lookups overlap only now and then);
+	// the first rejected attempt, else the last one, is the result -- a fatal runtime error ends the process
+	rounds := w.Rounds
+	if rounds < 1 {
+		rounds = 1
+	}
+	var res windowD
+	for k := 0; k < rounds; k++ {
+		res = w
+		res.Ver = 0 // a fresh instance; nothing is read before the clients start
+		g := build(w.Shape, w.Init, &jit{level: w.Jitter})
+		oneWindow(g, &res, -1, clock)
+		if res.flagged() {
+			break
+		}
+	}
+	json.NewEncoder(os.Stdout).Encode(&res)
+}
+
+func runCold(w *windowD) {
+	w.Cold = true
+	if w.Rounds == 0 {
+		w.Rounds = 12
+	}
+	in, _ := json.Marshal(w)
+	ctx, cancel := context.WithTimeout(context.Background(), 3**windowTimeout+10*time.Second)
+	defer cancel()
+	cmd := exec.CommandContext(ctx, os.Args[0], "-cold-child", "-window-timeout", windowTimeout.String())
+	cmd.Stdin = bytes.NewReader(in)
+	var out, errb bytes.Buffer
+	cmd.Stdout, cmd.Stderr = &out, &errb
+	err := cmd.Run()
+	stderr := errb.String()
+	var res windowD
+	if json.Unmarshal(out.Bytes(), &res) == nil && res.Shape != nil {
+		*w = res
+		w.Cold = true
+	} else {
+		// the child died: every programmed call is reported as failed
+		w.Crash = "child process exited abnormally"
+		if err != nil {
+			w.Crash += " (" + err.Error() + ")"
+		}
+		for _, l := range strings.Split(stderr, "\n") {
+			if strings.HasPrefix(l, "fatal error:") || strings.HasPrefix(l, "panic:") {
+				w.Crash = l
+				break
+			}
+		}
+		var recs []rec
+		st := uint64(0)
+		for t, prog := range w.Progs {
+			for _, op := range prog {
+				if op.K == "u" || op.K == "b" || op.K == "g" || op.K == "a" {
+					rc := rec{T: t, Op: op, Resp: respD{K: "fail"}, Note: w.Crash, Inv: st, Res: st + 1}
+					if op.K == "a" {
+						rc.F = w.Shape.prodLists(op.Prod)
+					}
+					st += 2
+					recs = append(recs, rc)
+				}
+			}
+		}
+		w.Final, w.VerAfter = w.Init, 0
+		finishWindow(w, recs)
+	}
+	if k := strings.Index(stderr, "WARNING: DATA RACE"); k >= 0 {
+		rep := stderr[k:]
+		if e := strings.Index(rep, "=================="); e > 0 {
+			rep = rep[:e]
+		}
+		if len(rep) > 3000 {
+			rep = rep[:3000]
+		}
+		w.Race = rep
+		os.Stderr.WriteString(stderr) // the driver counts the reports
+	}
+}
+
+// coldPrograms: every client starts with a parameter call on an id nobody has looked up yet
+func coldPrograms(r *hx.Rng, g *liveGraph, T int, init []int) [][]opD {
+	progs := genPrograms(r, g, T, init, false)
+	P := len(g.par)
+	off := r.Intn(P)
+	for t := range progs {
+		p := (t + off) % P
+		first := opD{K: "g", P: p}
+		if len(progs[t]) > 0 && (progs[t][0].K == "g" || progs[t][0].K == "a") {
+			progs[t][0] = first
+		} else if len(progs[t]) > 0 && isUpdate(progs[t][0]) {
+			// keep the update (it addresses an id as well)
+		} else {
+			progs[t] = append([]opD{first}, progs[t]...)
+		}
+	}
+	return progs
 }
 
 // ---------------------------------------------------------------- main
@@ -761,6 +905,16 @@ func randomInit(r *hx.Rng, s *shapeD) []int {
 }
 
 func main() {
+	for _, a := range os.Args[1:] {
+		if a == "-cold-child" {
+			fs := flag.NewFlagSet("cold", flag.ExitOnError)
+			fs.Bool("cold-child", true, "")
+			fs.DurationVar(windowTimeout, "window-timeout", *windowTimeout, "")
+			fs.Parse(os.Args[1:])
+			coldChild()
+			return
+		}
+	}
 	run := hx.ParseFlags("C13", "Check.C13")
 	clock := &atomic.Uint64{}
 
@@ -778,6 +932,17 @@ func main() {
 		reproduced := 0
 		for a := 0; a < *attempts && reproduced < 3; a++ {
 			run.Count("replay:attempt")
+			if w.Cold {
+				nw := &windowD{Shape: w.Shape, Threads: w.Threads, Jitter: w.Jitter, Progs: w.Progs, Init: w.Init, Rounds: w.Rounds}
+				runCold(nw)
+				if nw.flagged() {
+					reproduced++
+					reruns = append(reruns, nw)
+				} else if a%15 == 0 {
+					reruns = append(reruns, nw)
+				}
+				continue
+			}
 			g := build(w.Shape, w.Init, &jit{level: w.Jitter})
 			nw := &windowD{Shape: w.Shape, Threads: w.Threads, Jitter: w.Jitter, Progs: w.Progs}
 			okp := g.primeGuarded(w.Init, clock)
@@ -822,6 +987,29 @@ func main() {
 	fixed := fixedShapes()
 	var windows []*windowD
 	epoch, wedged := 0, 0
+	// cold-start windows: each on its own fresh instance in a child process, all clients released together on ids
+	// nobody has looked up yet
+	ncold := *coldFlag
+	if ncold < 0 {
+		if ncold = run.N / 12; ncold > 400 {
+			ncold = 400
+		}
+	}
+	for k := 0; k < ncold && len(windows) < run.N; k++ {
+		var shape *shapeD
+		if r.Chance(1, 3) {
+			shape = hx.Pick(r, fixed)
+		} else {
+			shape = randomShape(r, 1000+k)
+		}
+		T := r.Range(2, 8)
+		init0 := randomInit(r, shape)
+		g := build(shape, init0, &jit{})
+		cw := &windowD{Shape: shape, Threads: T, Jitter: *jitterFlag, Init: init0}
+		cw.Progs = coldPrograms(r, g, T, init0)
+		runCold(cw)
+		windows = append(windows, cw)
+	}
 	for len(windows) < run.N {
 		var shape *shapeD
 		if epoch < len(fixed) {
